@@ -833,11 +833,6 @@ impl<'tcx> Ctx<'tcx> {
             let mut v: Vec<(&str, String)> = Vec::new();
             v.push(("path", js(&path_of(tcx, did))));
             v.push(("ty", js(&ty_str(ty))));
-            let generics = tcx.generics_of(did);
-            if generics.own_requires_monomorphization() || generics.parent_count > 0 {
-                out.push(jobj(v));
-                continue;
-            }
             if ty.is_integral() || ty.is_bool() {
                 let r = std::panic::catch_unwind(std::panic::AssertUnwindSafe(|| {
                     tcx.const_eval_poly(did)
